@@ -460,3 +460,32 @@ package rsm
 //@ requires !gRemoved[fp]
 //@ modifies gRemoved
 //@ ensures !gRemoved[fp]
+
+// ---------------------------------------------------------------- shrunk snapshot files (C14)
+// A shrunk snapshot is recognised (IsShrunkSnapshotFile) and loaded by reading its body as raw
+// bytes, so it must always be written without compression, whatever the original file used.
+// gWriterCT: the compression type the most recently created snapshot writer was given.
+//@ ghost var gWriterCT int
+//@ func NewSnapshotWriter [C14]
+//@ trusted creates the file and the (possibly compressing) block writer over it
+//@ ensures result1 == nil ==> result0 != nil
+//@ ghostset gWriterCT := ct
+//@ func NewSnapshotReader [C14]
+//@ trusted opens the file and reads its header
+//@ ensures result2 == nil ==> result0 != nil
+//@ func (sr *SnapshotReader) Close [C14]
+//@ trusted closes the file
+//@ func (sw *SnapshotWriter) Close [C14]
+//@ trusted flushes, writes the header, syncs and closes the file
+//@ func (sw *SnapshotWriter) Write [C14]
+//@ trusted writes through the block writer
+//@ func GetEmptyLRUSession [C14]
+//@ trusted constant image of an empty session table
+//@ func mustInSameDir [C14]
+//@ trusted path comparison (panics otherwise)
+
+//@ func ShrinkSnapshot [C14]
+//@ noframe
+//@ nobounds
+//@ modifies gWriterCT
+//@ ensures err == nil ==> gWriterCT == pb.NoCompression
